@@ -78,6 +78,7 @@ func (e *Enc) sentinelVal(st *State, g *ssa.Global) *Val {
 }
 
 func (w *World) verifyFunc(fn *ssa.Function, c *FuncContract) (rep *FuncReport) {
+	w.scopePkg = funcPkgPath(fn)
 	e := w.newEnc(fn, c)
 	rep = &FuncReport{Key: e.fnName, Pkg: funcPkgPath(fn), Props: c.Props, s: e.s, IntMode: "Int-with-wrap (machine-exact)"}
 	defer func() {
@@ -481,6 +482,12 @@ func cmdCheck(args []string) int {
 		c := cs.Funcs[k]
 		if c.Trusted && (need[c.Pkg]) {
 			addA("assumed contract (not verified): " + k + " " + c.TrustNote)
+		}
+	}
+	for _, k := range sortedKeys(cs.Scoped) {
+		c := cs.Scoped[k]
+		if need[c.SpecPkg] {
+			addA("assumed contract (not verified): " + c.Pkg + "::" + c.Key + " as declared in " + c.SpecPkg + " (" + c.TrustNote + ")")
 		}
 	}
 	known := loadKnown(filepath.Join(*verifDir, "known_findings.json"))
